@@ -36,7 +36,8 @@ OFFPATH_PROJECTION = {"filterMasterAnnotations", "filterMinionAnnotations"}
 TRUSTED = [
     "Rocq 8.16.1 kernel incl. vm_compute (no native_compute); no axioms (Print Assumptions: closed)",
     "the translator harness/overlay/internal/verifh/c09t (go/parser + go/types over the three packages, export data from `go list -export`): "
-    "trusted to list every range statement whose operand has map type and to classify the loop body syntactically; it is re-run on every check",
+    "trusted to list every range statement whose operand has map type and to classify the loop body syntactically; it is re-run on every check; "
+    "of internal/k8s only configuration.go (the Configuration that orders what the Configurator renders) is inventoried",
     "the hand-written consumer models in coq/Determ/Model.v (one per site) -- tied to the code by the unit family of the harness "
     "(real generateAPIKeyClients, upstreamMapToSlice, filter*/merge* annotations, generateTLSPassthroughHostsConfig, GenerateVirtualServerConfig) "
     "and by the class/operand/targets the translator reports for each site",
@@ -289,6 +290,8 @@ def slim(c):
                     "reloads_after_first": sum(1 for r in (o.get("renderings") or [])[1:] if r["reloaded"] and not r.get("fresh_process"))}
         if o.get("mutated"):
             s["obs"]["inputs_modified_by_the_generator"] = o["mutated"]
+        if o.get("resync"):
+            s["obs"]["changes_reported_for_unchanged_objects"] = o["resync"]
     elif c["fam"] == "history":
         s["obs"] = {"scenario": o.get("scenario"), "files_for_B_differ_from_a_fresh_rendering": o.get("diff"),
                     "inputs_modified_by_the_generator": o.get("mutated"), "b_fresh": o.get("b_fresh"), "b_after_a": o.get("b_after_a")}
@@ -328,6 +331,10 @@ def judge(run, cases, res, status, verbose=False):
                 run.failing({"kind": "input-mutated", "resource": c["kind"]}, [slim(c)],
                             "the generator wrote into the objects it was given (%s fixture): %s" % (c["kind"], "; ".join(o["mutated"])[:600]),
                             theorem="Determ.Proofs.history_independent (hypothesis: the step leaves its inputs alone)")
+            if o.get("resync"):
+                run.failing({"kind": "resync-reports-change", "resource": c["kind"]}, [slim(c)],
+                            "delivering an UNCHANGED object again makes the Configuration report a change (%s fixture): %s" % (c["kind"], "; ".join(o["resync"])[:500]),
+                            theorem="Determ.Model.spec_ok: re-processing an unchanged resource never looks like a change")
             files_differ = len({json.dumps(r["files"]) for r in o["renderings"]}) > 1 or any(r["changed"] or r["reloaded"] for r in o["renderings"][1:])
             if files_differ and (o.get("diff") or {}).get("between_processes"):
                 d = o["diff"]
@@ -431,7 +438,8 @@ def check(run):
     run.cov["processes"] = PROCS
     run.cov["rule"] = ("render: 25 fixed fixtures (upstreams selected by 2-4 subselector labels, endpoint sets keyed by GenerateEndpointsKey as the controller keys them, and "
                        "`vsctl` / `ingctl` / `tsctl` fixtures that go through the controller's real createVirtualServerEx / createIngressEx / createTransportServerEx over stores of "
-                       "Services, labelled Pods and THREE EndpointSlices per Service (main, a mirror without targetRef, one naming other pods: podEndpoints that share an address); "
+                       "Services, labelled Pods and THREE EndpointSlices per Service; `cmresync`: the real Configuration with cert-manager on, one VirtualServer and 2-4 solver Ingresses for its "
+                       "host, an unchanged object delivered again every round (no change may be reported, the bytes must not move); slices: (main, a mirror without targetRef, one naming other pods: podEndpoints that share an address); "
                        "API-key Secret with 5 and 12 keys; 6 Secrets whose client ids collide under case folding / punctuation trimming / "
                        "separator folding / numeric padding; API-key policies in spec + routes + VirtualServerRoute subroutes; tiered rate-limit policies with 3-4 JWT claims in "
                        "one and two scopes; header lists, 5 upstreams x 4 endpoints, splits, matches; Ingress with 12+ annotations, 5 services, health checks; mergeable Ingress "
